@@ -100,6 +100,8 @@ func TestVerifC02(t *testing.T) {
 	defer tr.Finish(t)
 	defer withSkipSleep()()
 	shs := shapes(vrep.Thorough())
+	crng := vrep.Rand("c02-companions")
+	nExec := 0
 	for _, sh := range shs {
 		pts, primary, drec, ok := dryRun(r, sh)
 		if !ok {
@@ -120,7 +122,16 @@ func TestVerifC02(t *testing.T) {
 			}
 			for rep := 0; rep < reps; rep++ {
 				for _, delivered := range []bool{false, true} {
-					runCrash(r, tr, sh, pt, delivered, primary)
+					// what else happens while the dead client's transaction is recovered: quick takes the
+					// companions in rotation (offset by the seed), thorough adds two seed-chosen ones to the plain recovery
+					nExec++
+					comps := []Companion{Companion((nExec + int(vrep.Seed())) % int(NCompanions))}
+					if vrep.Thorough() {
+						comps = []Companion{CompNone, Companion(1 + crng.Intn(int(NCompanions)-1)), Companion(1 + crng.Intn(int(NCompanions)-1))}
+					}
+					for _, comp := range comps {
+						runCrash(r, tr, sh, pt, delivered, primary, comp)
+					}
 				}
 			}
 		}
@@ -130,9 +141,12 @@ func TestVerifC02(t *testing.T) {
 	r.Floor("outcome_committed", 10)
 	r.Floor("outcome_rolled_back", 10)
 	r.Floor("ack_known_success", 5)
+	for c := CompNone; c < NCompanions; c++ {
+		r.Floor("companion:"+c.String(), 10)
+	}
 }
 
-func runCrash(r, tr *vrep.Report, sh Shape, pt Point, delivered bool, primary string) {
+func runCrash(r, tr *vrep.Report, sh Shape, pt Point, delivered bool, primary string, comp Companion) {
 	env, err := NewEnv(sh)
 	if err != nil {
 		r.Inconc("%s: env: %v", sh, err)
@@ -180,10 +194,15 @@ func runCrash(r, tr *vrep.Report, sh Shape, pt Point, delivered bool, primary st
 	for _, mu := range sh.Muts {
 		keys = append(keys, mu.Key)
 	}
-	obs, gcw, err := env.Recover(keys, []uint64{t0})
+	obs, gcws, err := env.RecoverWith(keys, []uint64{t0}, comp)
 	if err != nil {
-		r.Inconc("%s @%s delivered=%v: recovery: %v", sh, pt, delivered, err)
+		r.Inconc("%s @%s delivered=%v companion=%s: recovery: %v", sh, pt, delivered, comp, err)
 		return
+	}
+	r.Count("companion:"+comp.String(), 1)
+	if env.LockerLivelock.Load() {
+		r.Violate("recovery-livelock:locker", fmt.Sprintf("%s @%s delivered=%v companion=%s: a pessimistic transaction locking the dead transaction's keys after their locks expired sent more than %d requests in one LockKeys call without finishing", sh, pt, delivered, comp, LockerRPCBound),
+			map[string]any{"shape": sh.String(), "point": pt.String(), "delivered": delivered, "calls_tail": callTail(env, 30)})
 	}
 	ackKnown := ackAtKill.Load() && rec.CommitClass != work.EKilled
 	v, err := env.Judge(rec, obs, ackKnown)
@@ -193,9 +212,9 @@ func runCrash(r, tr *vrep.Report, sh Shape, pt Point, delivered bool, primary st
 	}
 	r.Eval(1)
 	r.Count("crash_executions", 1)
-	label := fmt.Sprintf("%s @%s delivered=%v", sh, pt, delivered)
+	label := fmt.Sprintf("%s @%s delivered=%v companion=%s", sh, pt, delivered, comp)
 	for _, p := range v.Problems {
-		r.Violate(p.Sig, label+": "+p.Msg, map[string]any{"shape": sh.String(), "point": pt.String(), "delivered": delivered, "ack_known": ackKnown,
+		r.Violate(p.Sig, label+": "+p.Msg, map[string]any{"shape": sh.String(), "point": pt.String(), "delivered": delivered, "companion": comp.String(), "ack_known": ackKnown,
 			"commit_class": rec.CommitClass, "commit_err": rec.CommitErr, "observations": obs, "calls": callDump(env)})
 	}
 	for _, p := range env.U.Panics() {
@@ -214,11 +233,23 @@ func runCrash(r, tr *vrep.Report, sh Shape, pt Point, delivered bool, primary st
 		}
 	}
 	r.Count("recovery_path:"+v.Path, 1)
-	r.Distinct(fmt.Sprintf("%s|%s|%v|%s|%s|ack=%v", sh, pt, delivered, out, v.Path, ackKnown))
+	r.Distinct(fmt.Sprintf("%s|%s|%v|%s|%s|%s|ack=%v", sh, pt, delivered, comp, out, v.Path, ackKnown))
 	if r.SampleN() < 5 && (v.Path != "" || r.SampleN() < 2) {
-		r.Sample(map[string]any{"shape": sh.String(), "crash_point": pt.String(), "delivered": delivered, "outcome": out, "recovery_path": v.Path, "ack_known": ackKnown, "commit_class": rec.CommitClass})
+		r.Sample(map[string]any{"shape": sh.String(), "crash_point": pt.String(), "delivered": delivered, "companion": comp.String(), "outcome": out, "recovery_path": v.Path, "ack_known": ackKnown, "commit_class": rec.CommitClass})
 	}
-	trace.CheckUniverse(tr, env.U, []*work.TxnRec{rec}, label, trace.Options{CheckBuffer: true, GCWindows: [][2]int64{gcw}})
+	trace.CheckUniverse(tr, env.U, []*work.TxnRec{rec}, label, trace.Options{CheckBuffer: true, GCWindows: gcws})
+}
+
+func callTail(env *Env, n int) []string {
+	cs := env.U.Log.Calls()
+	if len(cs) > n {
+		cs = cs[len(cs)-n:]
+	}
+	var out []string
+	for _, c := range cs {
+		out = append(out, fmt.Sprintf("#%d..%d c%d %s %s err=%q regErr=%v :: %.240v => %.200v", c.Seq, c.RetSeq, c.Client, c.Cmd, c.Action, c.Err, c.RegionErr != nil, c.Req, c.Resp))
+	}
+	return out
 }
 
 func callDump(env *Env) []string {
